@@ -438,6 +438,7 @@ func runPath(prog *ssa.Program, sh *Shared, fn *ssa.Function, prefix []int32, so
 	}
 	base := solver.Depth()
 	solver.Push()
+	defer i.killThreads()
 	defer func() {
 		r := recover()
 		if r != nil {
